@@ -301,3 +301,18 @@ Theorem attach_at_root_removes_offset left_side origin dx dy dz yoff :
 Proof.
   destruct origin as [x y z]; destruct left_side; unfold attach_at_root, root_loc, delta_origin, vadd; cbn [vx vy vz]; rnum; apply V3_eq_Q; ring.
 Qed.
+
+(* the per-side sign conventions of the getters make the two halves of a wing mirror images section by section *)
+Theorem getters_mirror dr d s :
+  get_dihedral dr true d s = - get_dihedral dr false d s /\ get_sweep dr true d s = - get_sweep dr false d s.
+Proof. unfold get_dihedral, get_sweep. rnum. split; ring. Qed.
+Theorem unswept_vectors_mirror tw di :
+  unswept_axial cos sin tw (- di) = mirror_y (unswept_axial cos sin tw di) /\
+  unswept_normal cos sin tw (- di) = mirror_y (unswept_normal cos sin tw di) /\
+  unswept_span cos sin (- di) = V3 0 (cos di) (- sin di).
+Proof.
+  unfold unswept_axial, unswept_normal, unswept_span, mirror_y; cbn [vx vy vz]; rnum. rewrite cos_neg, sin_neg.
+  repeat split; apply V3_eq_Q; ring.
+Qed.
+Theorem ll_loc_mirror qc off chord ua : ll_loc (mirror_y qc) off chord (mirror_y ua) = mirror_y (ll_loc qc off chord ua).
+Proof. destruct qc, ua. unfold ll_loc, mirror_y, vadd, vscale; cbn [vx vy vz]; rnum. apply V3_eq_Q; ring. Qed.
